@@ -74,6 +74,12 @@ func emit(g *Gen) string {
 		return fmt.Sprintf("  %s(%s + %s.%s)\n", pr, v, elkInt(ints[0]), g.Op[4:])
 	case "sub_days", "sub_months", "sub_years":
 		return fmt.Sprintf("  %s(%s - %s.%s)\n", pr, v, elkInt(ints[0]), g.Op[4:])
+	case "add_days_dyn", "sub_days_dyn":
+		op := "+"
+		if g.Op == "sub_days_dyn" {
+			op = "-"
+		}
+		return fmt.Sprintf("  var s: Date::Span | Time::Span = %s.days\n  %s(%s %s s)\n", elkInt(ints[0]), pr, v, op)
 	case "add_clock", "sub_clock":
 		op := "+"
 		if g.Op == "sub_clock" {
